@@ -98,7 +98,10 @@ fn main() {
     let dir = scratch_root().join(format!("workerck-{}", std::process::id()));
     let _ = std::fs::remove_dir_all(&dir);
     std::fs::create_dir_all(&dir).unwrap();
-    let rt = tokio::runtime::Builder::new_multi_thread().worker_threads(4).max_blocking_threads(8).enable_all().build().unwrap();
+    // stale-request runs on a current-thread runtime: there the client gets to close the active blob before the
+    // worker is polled for the rotation request the last write has just sent
+    let rt = if scenario == "stale-request" { tokio::runtime::Builder::new_current_thread().enable_all().build().unwrap() }
+             else { tokio::runtime::Builder::new_multi_thread().worker_threads(4).max_blocking_threads(8).enable_all().build().unwrap() };
     let tapo = Arc::new(DelayTap { start: Instant::now(), delays: Mutex::new(HashMap::new()), events: Mutex::new(vec![]) });
     pearl::verif::set_tap(Some(tapo.clone()));
     tapo.log(json!({"ev": "reset", "op": "fires", "t": 0}));
@@ -170,6 +173,38 @@ fn main() {
             detail = json!({"deferred_gauge": pearl::verif::PROBE.deferred.load(std::sync::atomic::Ordering::SeqCst),
                             "msgs": pearl::verif::PROBE.msgs.load(std::sync::atomic::Ordering::SeqCst),
                             "dump_tasks": pearl::verif::PROBE.dump_tasks.load(std::sync::atomic::Ordering::SeqCst)});
+        }
+        if scenario == "stale-request" {
+            // C13: a rotation request that finds nothing to rotate (the client closed the overflowed blob itself before
+            // the worker got to the request) must not stop later rotations
+            drop(st);
+            let _ = std::fs::remove_dir_all(&d2);
+            std::fs::create_dir_all(&d2).map_err(|e| e.to_string())?;
+            let mut s2: Storage<ArrayKey<N>> = Builder::new().work_dir(&d2).blob_file_name_prefix("vb").max_blob_size(1 << 40).max_data_in_blob(5)
+                .allow_duplicates().build().map_err(|e| format!("{e:#}"))?;
+            s2.init().await.map_err(|e| format!("init: {e:#}"))?;
+            for round in 0..3u64 {
+                for i in 1..=6 { put(&s2, round * 10 + i).await?; }
+                tokio::time::sleep(Duration::from_millis(300)).await;          // rotation debounce
+                put(&s2, round * 10 + 7).await?;                               // sends the rotation request
+                let _ = s2.try_close_active_blob().await;                      // the client is faster than the worker
+                tokio::time::sleep(Duration::from_millis(50)).await;
+            }
+            wait_quiescent(true, Duration::from_secs(30)).await?;
+            // now an ordinary overflow: the active blob must be switched
+            for i in 1..=6 { put(&s2, 100 + i).await?; }
+            tokio::time::sleep(Duration::from_millis(300)).await;
+            let before = s2.blobs_count().await;
+            let mut after = before;
+            for i in 0..40u64 {
+                put(&s2, 200 + i).await?;
+                tokio::time::sleep(Duration::from_millis(100)).await;
+                after = s2.blobs_count().await;
+                if after > before { break; }
+            }
+            let in_active = s2.records_count_in_active_blob().await;
+            let close_ok = matches!(tokio::time::timeout(Duration::from_secs(30), s2.close()).await, Ok(Ok(())));
+            return Ok(json!({"dumped_after_idle": after > before, "close_ok": close_ok, "detail": {"blobs_before": before, "blobs_after": after, "records_in_active": in_active, "limit": 5}}));
         }
         if scenario == "late-install" {
             // C03 under a schedule: the worker prepares the next blob (id n) for force_update_active_blob before it
@@ -278,7 +313,9 @@ fn main() {
     match res {
         Ok(v) => {
             if v["dumped_after_idle"] != true || v["close_ok"] != true {
-                let (kind, expected) = if scenario == "late-install" {
+                let (kind, expected) = if scenario == "stale-request" {
+                    ("rotation_stopped", "an overflowed active blob is switched (also after rotation requests that found nothing to rotate)")
+                } else if scenario == "late-install" {
                     ("restart_changes_answer", "the answer to read(key) after close and reopen is the answer before the close")
                 } else if scenario == "channel-full" {
                     ("maintenance_stuck", "every client finishes, the overflowed active blob is switched and close returns")
